@@ -19,11 +19,16 @@ import traceback
 sys.setrecursionlimit(20000)
 
 VERIF = os.path.dirname(os.path.dirname(os.path.abspath(__file__)))
-EVIDENCE_DIR = os.environ.get("PYVC_EVIDENCE_DIR")  # scratch runs (mutant trials) must not overwrite the committed evidence
+EVIDENCE_DIR = os.environ.get("PYVC_EVIDENCE_DIR")
+REPLAY_ROOT = os.environ.get("PYVC_REPLAY_DIR") or VERIF  # scratch runs write their replay files elsewhere  # scratch runs (mutant trials) must not overwrite the committed evidence
 REPO = os.environ.get("PYVC_REPO", "/repo")
 NATIVE_PY = os.environ.get("PYVC_NATIVE_PY", "/venv/bin/python")
 CONTRACT_MODULES = ["c06", "c19", "c10", "c18", "c08", "c12", "c09", "c17", "c02", "c11", "c20", "c05", "c13", "c15",
                     "c01", "c03", "c04", "c07", "c16", "c14"]
+
+
+LEAN_LEMMAS = {"C09": [("SplitJoin.lean", "split_join_fields: splitOn sep (intercalate [sep] fields) = fields for separator-free fields")],
+               "C17": [("SplitJoin.lean", "split_join_fields (records joined by line breaks)")]}
 
 
 def load_world():
@@ -397,8 +402,12 @@ def check_property(prop, tier, seed):
             f["exits"][p["outcome"]] = f["exits"].get(p["outcome"], 0) + 1
             if p["outcome"] == "unsupported":
                 undecided.append(f"{key}[{res['scenario']}]: unsupported: {p['detail']}")
-            if p["outcome"] in ("return", "lemma") or p["outcome"].startswith("raise:"):
+            if p["outcome"] in ("return", "lemma", "beyond-reach") or p["outcome"].startswith("raise:"):
                 live += 1
+            if p["outcome"] == "beyond-reach":
+                f.setdefault("beyond_reach", [])
+                if p["detail"][:100] not in f["beyond_reach"]:
+                    f["beyond_reach"].append(p["detail"][:100])
         reach[(key, res["scenario"])] = live
         if res.get("shard", 0) == 0 and live == 0 and not any(p["outcome"] == "unsupported" for p in res["paths"]):
             internal.append(f"{key}[{res['scenario']}]: no reachable exit (vacuous scenario: contradictory requires/invariants?)")
@@ -442,6 +451,25 @@ def check_property(prop, tier, seed):
             else:
                 static_fail.append((name, detail))
         solver_time += time.time() - t1
+    # ---- generic lemmas checked by Lean (list induction is outside SMT's reach)
+    for lemma_file, lemma_name in LEAN_LEMMAS.get(prop, []):
+        t1 = time.time()
+        try:
+            lp = subprocess.run(["lean", os.path.join(VERIF, "lean", lemma_file)], capture_output=True, text=True, timeout=300)
+            ok_lean = lp.returncode == 0 and "error" not in (lp.stdout + lp.stderr).lower() and "sorry" not in (lp.stdout + lp.stderr).lower()
+            detail = (lp.stdout + lp.stderr)[-300:]
+        except Exception as e:  # noqa
+            ok_lean, detail = False, repr(e)
+        n_obl += 1
+        f = functions.setdefault("lean:" + lemma_file, {"function": f"lemma {lemma_name} ({lemma_file}, Lean 4 core)", "source_sha256_16": "-", "scenarios": 1,
+                                                         "paths": 0, "obligations": 0, "exits": {}})
+        f["obligations"] += 1
+        solver_time += time.time() - t1
+        if ok_lean:
+            n_dis += 1
+            by_backend["lean"] = by_backend.get("lean", 0) + 1
+        else:
+            undecided.append(f"Lean lemma {lemma_name} not checked: {detail}")
     # ---- bounded / native parts
     bounded = run_bounded(prop, tier, seed)
     # path-directed native evaluation of the contracts on the real code (bounded, never counted as proved)
@@ -473,7 +501,7 @@ def check_property(prop, tier, seed):
     # ---- report
     lines = []
     vio_count = 0
-    os.makedirs(os.path.join(VERIF, "replays", prop), exist_ok=True)
+    os.makedirs(os.path.join(REPLAY_ROOT, "replays", prop), exist_ok=True)
     seen = set()
     for res, d in violations:
         ct = w.contracts.get(res["func"])
@@ -494,13 +522,13 @@ def check_property(prop, tier, seed):
             replay["native"] = nat
             confirmed = bool(nat.get("failed"))
         replay["confirmed"] = confirmed
-        with open(os.path.join(VERIF, rp), "w") as fh:
+        with open(os.path.join(REPLAY_ROOT, rp), "w") as fh:
             json.dump(replay, fh, indent=1, default=str)
         vio_count += 1
         lines.append(f"VIOLATION property={prop} replay={rp}" + ("" if confirmed else " no-failing-input-found"))
     for name, detail in static_fail:
         rp = os.path.join("replays", prop, safe("static__" + name.replace("/", "_")) + ".json")
-        with open(os.path.join(VERIF, rp), "w") as fh:
+        with open(os.path.join(REPLAY_ROOT, rp), "w") as fh:
             json.dump({"property": prop, "obligation": name, "kind": "static obligation over the ast of the real source", "detail": detail,
                        "solver": {"backend": "ast", "status": "refuted (syntactic obligation does not hold); no input is produced by this back end"},
                        "confirmed": False}, fh, indent=1)
@@ -513,7 +541,7 @@ def check_property(prop, tier, seed):
             continue
         seen_nat.add(ident)
         rp = os.path.join("replays", prop, safe(f"native__{res['func'].split('.')[-1]}__{res['scenario']}__{o['failed'][0]}") + ".json")
-        with open(os.path.join(VERIF, rp), "w") as fh:
+        with open(os.path.join(REPLAY_ROOT, rp), "w") as fh:
             json.dump({"property": prop, "obligation": f"{res['func']}/{o['failed'][0]}", "scenario": res["scenario"], "function": res["func"],
                        "kind": "native contract evaluation (bounded)", "origin": smp["origin"], "args": smp["args"], "native_job": job,
                        "native": o, "confirmed": True}, fh, indent=1, default=str)
@@ -525,6 +553,9 @@ def check_property(prop, tier, seed):
     for kf in known_findings():
         if kf.get("kind") == "known" and kf.get("property") == prop:
             lines.append(f"KNOWN-FINDING: property={prop} {kf['what']}")
+    selftest = None
+    if tier == "thorough" and not os.environ.get("PYVC_NO_SELFTEST") and REPO == "/repo":
+        selftest = seeded_selftest(prop)
     wall = time.time() - t0
     level = LEVELS.get(prop, "proof")
     trusted = sorted(lib_used) + [f"dropped by extraction: {x}" for x in sorted(dropped)] + TRUSTED_COMMON
@@ -537,6 +568,7 @@ def check_property(prop, tier, seed):
         "samples": (samples + [{"bounded_case": x} for x in (bounded.get("samples") or [])[:3]]) or [{"note": "no discharged ensures/raises obligation to show"}],
         "undecided": undecided[:20], "bounded": bounded.get("parts", []),
         "explanation": EXPLAIN.get(prop, ""),
+        "seeded_defect_selftest": selftest,
         "evaluations": bounded.get("evaluations", 0), "distinct_nontrivial": bounded.get("distinct", 0),
         "rule": bounded.get("rule", ""),
     }
@@ -567,6 +599,44 @@ def check_property(prop, tier, seed):
         print("INTERNAL: zero obligations generated")
         return 3
     return 0
+
+
+def seeded_selftest(prop):
+    """Thorough tier only: the quick check of this property is run against each seeded property-breaking change of
+    /verif/seeded that targets it, on a scratch copy of /repo's working tree (removed afterwards).  Informational: the
+    outcome is recorded in the evidence and never changes the verdict on /repo."""
+    import shutil
+    import tempfile
+
+    out = []
+    sd = os.path.join(VERIF, "seeded")
+    if not os.path.isdir(sd):
+        return out
+    names = sorted(n for n in os.listdir(sd) if n.startswith(prop + "_"))
+    for n in names:
+        tmp = tempfile.mkdtemp(prefix="pyvc_selftest_")
+        try:
+            shutil.copytree(os.path.join(REPO, "robotools"), os.path.join(tmp, "robotools"))
+            if os.path.isdir(os.path.join(REPO, "robotools.egg-info")):
+                shutil.copytree(os.path.join(REPO, "robotools.egg-info"), os.path.join(tmp, "robotools.egg-info"))
+            ap = subprocess.run(["git", "apply", "--unsafe-paths", f"--directory={tmp}", os.path.join(sd, n, "patch.diff")], cwd=tmp,
+                                capture_output=True, text=True)
+            if ap.returncode != 0:
+                ap = subprocess.run(["patch", "-p1", "-s", "-i", os.path.join(sd, n, "patch.diff")], cwd=tmp, capture_output=True, text=True)
+            if ap.returncode != 0:
+                out.append({"seeded": n, "applies": False})
+                continue
+            env = dict(os.environ, PYVC_REPO=tmp, PYVC_EVIDENCE_DIR=os.path.join(tmp, "evidence"), PYVC_NO_SELFTEST="1", PYVC_REPLAY_DIR=os.path.join(tmp, "replays"))
+            p = subprocess.run([os.path.join(VERIF, "check"), prop, "quick"], cwd=VERIF, env=env, capture_output=True, text=True, timeout=3000)
+            vio = [ln for ln in p.stdout.splitlines() if ln.startswith("VIOLATION")]
+            out.append({"seeded": n, "applies": True, "exit": p.returncode, "violations_reported": len(vio),
+                        "by_deductive_obligation": sum(1 for v in vio if "/bounded_" not in v and "/native__" not in v),
+                        "by_bounded_or_native": sum(1 for v in vio if "/bounded_" in v or "/native__" in v), "detected": p.returncode == 1})
+        except Exception as e:  # noqa
+            out.append({"seeded": n, "error": repr(e)[:200]})
+        finally:
+            shutil.rmtree(tmp, ignore_errors=True)
+    return out
 
 
 def run_bounded(prop, tier, seed):
